@@ -92,6 +92,14 @@ Theorem C12_api_sql :
 Proof. exact api_sql. Qed.
 Print Assumptions C12_api_sql.
 
+(* The "pyarrow does not refuse" hypothesis is satisfiable in general: it holds on every row that has
+   the columns the expression reads and whose cells are comparable with the scalar literals (or NULL),
+   when pyarrow refuses nothing beyond the Python-incomparable pairs. *)
+Theorem C12_typed_evaluates :
+  forall (X : value -> value -> bool) (e : cexpr) (r : row), typed e r -> eval3 X (fun _ _ => false) e r <> None.
+Proof. exact typed_defined. Qed.
+Print Assumptions C12_typed_evaluates.
+
 (* When pyarrow refuses a row of a file that is read (type error for a literal), the scan raises --
    and by C12_api_agree so does every other API. *)
 Theorem C12_refused_raises :
